@@ -363,6 +363,20 @@ def _convert_csp_to_z3(csp: list[FNode]) -> list:
     return [converter.convert(expr) for expr in csp]
 
 
+def _int_assignments(m: z3.ModelRef) -> dict[str, int]:
+    """Integer-valued constants of a z3 model.
+
+    A model may also contain auxiliary (e.g. Boolean) constants introduced by the
+    solver; those have no ``as_long`` and are not part of the result.
+    """
+    result: dict[str, int] = {}
+    for d in m.decls():
+        value = m[d]
+        if z3.is_int_value(value):
+            result[d.name()] = cast(Any, value).as_long()
+    return result
+
+
 def solve_and_get_model(
     csp: list[FNode], minimize_vars: list[str] | None = None
 ) -> dict[str, int] | None:
@@ -384,8 +398,7 @@ def solve_and_get_model(
         s = z3.Solver()
         s.add(*z3_csp)
         if s.check() == z3.sat:
-            m = s.model()
-            return {d.name(): cast(Any, m[d]).as_long() for d in m.decls()}
+            return _int_assignments(s.model())
         return None
 
     # Otherwise build an optimiser.
@@ -399,8 +412,7 @@ def solve_and_get_model(
 
     # Enumerate first Pareto-optimal model (suffices since *priority='pareto'*).
     if opt.check() == z3.sat:
-        m = opt.model()
-        return {d.name(): cast(Any, m[d]).as_long() for d in m.decls()}
+        return _int_assignments(opt.model())
 
     return None
 
@@ -448,8 +460,7 @@ def solve_pareto_front(
 
     results: list[dict[str, int]] = []
     while opt.check() == z3.sat:
-        m = opt.model()
-        results.append({d.name(): cast(Any, m[d]).as_long() for d in m.decls()})
+        results.append(_int_assignments(opt.model()))
         if max_solutions is not None and len(results) >= max_solutions:
             break
 
